@@ -205,7 +205,7 @@ def op_token(op):
     if k in ("L", "U", "D"):
         return k + "=" + show(op[1])
     if k == "W":
-        return "W=" + show(op[1]) + ";" + show(op[2]) + ";" + show(op[3])
+        return "W=" + show(op[1]) + ";" + show(op[2]) + ";" + (show(op[3]) if len(op) > 3 else "-")
     if k == "F":
         return "F=" + str(op[1]) + ";" + show(op[2])
     if k == "B":
